@@ -326,6 +326,9 @@ fn datagrams_from_transmit(transmit: &Transmit<'_>) -> Datagrams {
 /// Verification hooks, compiled only with `--cfg iroh_verif`.
 #[cfg(iroh_verif)]
 pub mod verif_hooks {
+    /// The home-relay watch (`HomeRelayWatch`) driven directly.
+    pub use super::actor::verif_hooks as home_relay;
+
     use std::{
         io,
         num::NonZeroU16,
